@@ -390,6 +390,15 @@ def c17_scenarios(rng, n):
                 inbound = [{"g": 1, "after": 0, "q": q, "tag": 101}, {"g": 1, "after": 0, "q": q, "tag": 102}] + [{"g": g, "after": 0, "q": q, "tag": 100 * g + 1} for g in range(2, nre + 2)]
                 out.append(rf.scenario("c17s-%d" % i, [dict(HANDLE(1), swap=2), PUB(1)], [p1, "conn"], faults, inbound=inbound))
                 i += 1
+    # re-connection attempts that FAIL in between (refused or unanswered CONNECT): the handler is there again on the
+    # connection that finally succeeds
+    for ca, oo in (([{}, {"code": 3}], {}), ([{}, {"code": 5}, {"code": 2}], {}), ([{}, {"silent": True}], {"connTimeoutMs": 60})):
+        for p1 in ("pre", "conn"):
+            for q in (0, 1, 2):
+                gl = len(ca) + 1
+                inbound = [{"g": 1, "after": 0, "q": q, "tag": 101}, {"g": gl, "after": 0, "q": q, "tag": 100 * gl + 1}, {"g": gl, "after": 1, "q": q, "tag": 100 * gl + 2}]
+                out.append(rf.scenario("c17f-%d" % i, [HANDLE(1), PUB(1)], [p1, "conn"], [{"p": "PUBLISH", "n": 1, "o": "cutAfter"}], connacks=ca, inbound=inbound, opts=dict(oo)))
+                i += 1
     # the handler registered (and replaced) on the RetryClient object that was handed to WithRetryClient
     for nre in (0, 1, 2):
         for p1 in ("pre", "conn"):
